@@ -1,5 +1,5 @@
 (* C13 — output depends only on data directory and options, never on scheduling or reruns (partial: runtime not modelled). Pinned statements only: each theorem is closed by `exact` of a lemma proved in theories/. *)
-From RBP Require Import Bytes Model Misc.
+From RBP Require Import Bytes Model Misc Hashes Base58 Utf8 Wire Block Render ScriptCustom CustomTop ScriptBtc Index ParP.
 From RBP Require Drive Merkle Utxo Stats OutProto Reader Published Misc.
 
 Theorem C13_indexed_collect_any_order :
@@ -18,7 +18,17 @@ Theorem C13_result_independent_of_folder_content :
   forall (cap : nat) (L : N) (ws : list OutProto.wr) (rows : list (nat * bytes)) (trace : list OutProto.osop) (s : OutProto.fs), (0 < cap)%nat -> OutProto.run cap L ws rows = (trace, 0) -> NoDup (OutProto.tmps ws ++ OutProto.finals ws) -> OutProto.fresh_writers ws -> (forall r : nat * bytes, In r rows -> (fst r < length ws)%nat) -> forall j : nat, (j < length ws)%nat -> OutProto.fs_get (nth j (OutProto.finals ws) 0) (OutProto.apply_trace s trace) = Some (OutProto.data_for j rows) /\ OutProto.fs_get (nth j (OutProto.tmps ws) 0) (OutProto.apply_trace s trace) = None.
 Proof. exact OutProto.success_content. Qed.
 
+Theorem C13_outputs_in_any_order :
+  forall (c : coin) (dflt_out : txout) (dflt : txout * escript) (oo : list nat) (t : rawtx), complete_order (length (tx_outputs t)) oo -> eval_tx_in_order c dflt_out dflt oo t = eval_tx c t.
+Proof. exact eval_tx_any_order. Qed.
+
+Theorem C13_block_in_any_nested_order :
+  forall (c : coin) (dflt_out : txout) (dflt : txout * escript) (dflt_tx : rawtx) (dflt_etx : etx) (ot : list nat) (oo : nat -> list nat) (b : block), complete_order (length (b_txs b)) ot -> (forall (i : nat) (t : rawtx), nth_error (b_txs b) i = Some t -> complete_order (length (tx_outputs t)) (oo i)) -> eval_block_in_order c dflt_out dflt dflt_tx dflt_etx ot oo b = eval_block c b.
+Proof. exact eval_block_any_order. Qed.
+
 Print Assumptions C13_indexed_collect_any_order.
 Print Assumptions C13_prestate_independent.
 Print Assumptions C13_failure_touches_no_final.
 Print Assumptions C13_result_independent_of_folder_content.
+Print Assumptions C13_outputs_in_any_order.
+Print Assumptions C13_block_in_any_nested_order.
